@@ -1,9 +1,11 @@
 \* the design C25 requires: the guard is dropped before the done signal is sent
 SPECIFICATION SpecFixed
-INVARIANT TypeOK AtMostOneRun NoStuckWant
-PROPERTY WantLeadsToRun
+INVARIANT TypeOK AtMostOneRun NoStuckWant OwedIsQueued NoLostRequest
+PROPERTY WantLeadsToRun OwedLeadsToRun
 CHECK_DEADLOCK FALSE
 CONSTANTS
   UnlockFirst = TRUE
   WithMap = FALSE
+  ClearOnHeld = FALSE
+  EmitAllUpTo = 100
   KeepHist = FALSE
